@@ -204,6 +204,9 @@ func emit19(p *interpgen.Program) {
 	if plain != opd.Obs || plainMsg != opd.Err || strings.Join(rec.Trace, " ") != strings.Join(opd.Trace, " ") || rec.Hash != opd.Hash {
 		c.Violate("Debugger/snapshot-opcode-data-aliases-engine", fmt.Sprintf("changing ParsedOpcode.Data bytes inside State.Scripts changes the run: %s %q vs %s %q (or the callbacks / snapshots differ)", plain, plainMsg, opd.Obs, opd.Err), p)
 	}
+	if rec.Incons != "" {
+		c.Violate("Debugger/snapshot-inconsistent-with-execution", rec.Incons, p)
+	}
 	if ok, why := lifecycleOK(rec.Trace); !ok {
 		c.Violate("Debugger/callback-order", why+": "+strings.Join(rec.Trace, " "), p)
 	}
